@@ -139,6 +139,7 @@ class Assembler:
         self.consts = {}
         self.counter = 0
         self.fidelity = []     # (fi, a, b, edits, out_start_chunk, out_end_chunk)
+        self.lost = []         # hints / loop invariants whose anchor no longer exists
 
     # ------------------------------------------------------------------ token rendering
     def lead(self, fi, k):
@@ -710,7 +711,9 @@ class Assembler:
             loops = [l for l in self.find_loops(v, body_a, body_b) if not any(ra <= l[0] < rb for ra, rb in removed)]
             for n, (itname, ltext) in fs.loops.items():
                 if n > len(loops):
-                    raise ExtractError(f"lost anchor: {fs.path} has {len(loops)} loops, contract names loop {n}")
+                    # the loop the invariant was written for is gone: drop the invariant and say so
+                    self.lost.append({"fn": fs.path, "emitted": emit_name, "what": f"loop {n} (function now has {len(loops)} loops)"})
+                    continue
                 kw, ob = loops[n - 1]
                 if itname:
                     # for x in EXPR  -> for x in it: EXPR
@@ -722,7 +725,11 @@ class Assembler:
             for h in fs.hints:
                 r = self.find_anchor(v, body_a, body_b, h.anchor, h.occ)
                 if r is None:
-                    raise ExtractError(f"lost anchor: {fs.path}: occurrence {h.occ} of `{h.anchor}` not found")
+                    # proof hint whose anchor statement no longer exists: drop the hint and say so; the
+                    # runner then refuses to report a failure of this function as a violation unless a
+                    # concrete failing input is found on the real code
+                    self.lost.append({"fn": fs.path, "emitted": emit_name, "what": f"occurrence {h.occ} of `{h.anchor}`"})
+                    continue
                 if h.mode == "before":
                     inserts.append(Ins(r[0], h.text, f"hint:{fs.path}", 2))
                 elif h.mode == "wrap":
@@ -844,11 +851,11 @@ class Assembler:
             k = a
             while k <= b:
                 for e in pure.get(k, []):
-                    expected += [t.text for t in tokenize(e.text) if t.kind not in (WS, COMMENT)]
+                    expected += unmarked_tokens(e.text)
                 if k == b:
                     break
                 if k in by:
-                    expected += [t.text for t in tokenize(by[k].text) if t.kind not in (WS, COMMENT)]
+                    expected += unmarked_tokens(by[k].text)
                     k = by[k].b
                 else:
                     expected.append(fi.v.t[k].text)
@@ -870,6 +877,20 @@ class Assembler:
                 continue
             actual.append(t.text)
         return expected, actual
+
+
+def unmarked_tokens(text):
+    """significant tokens of `text` outside /*@L*/ ... /*@E*/ regions"""
+    out = []
+    depth = 0
+    for t in tokenize(text):
+        if t.kind == COMMENT and t.text.startswith("/*@L"):
+            depth += 1
+        elif t.kind == COMMENT and t.text.startswith("/*@E"):
+            depth -= 1
+        elif depth == 0 and t.kind not in (WS, COMMENT):
+            out.append(t.text)
+    return out
 
 
 def strip_vis(text):
@@ -910,6 +931,8 @@ if __name__ == "__main__":
     try:
         asm, text, path = build_unit(sys.argv[1], sys.argv[2] if len(sys.argv) > 2 else os.path.join(VERIF, ".cache", "units"))
         print(path, len(text.split("\n")), "lines;", len(asm.log), "rewrites")
+        for l in asm.lost:
+            print("LOST ANCHOR:", l["fn"], l["what"])
     except (ExtractError, VS.SpecError) as e:
         print("EXTRACT-ERROR:", e)
         sys.exit(2)
